@@ -202,3 +202,17 @@ V("C12", "edge-order", TOAST, "    right = _left_of_half_space_score(ur, lr, tes
 V("C12", "latlon-swapped", TOAST, "    ul = _equ_to_xyz(tile.corners[0][1], tile.corners[0][0])", "    ul = _equ_to_xyz(tile.corners[0][0], tile.corners[0][1])", "C12.R4")
 V("C12", "first-nonnegative", TOAST, "            if score > best_score:\n                tile = child\n                best_score = score", "            if score < best_score:\n                tile = child\n                best_score = score", "C12.R4")
 V("C12", "P-level1-lon-minus-pi", TOAST, "        level1_lon = (lon + np.pi) % TWOPI", "        level1_lon = (lon - np.pi) % TWOPI", "HOLDS")
+
+# ---------------------------------------------------------------- C13
+V("C13", "parent-indices-swapped", PYR, "return parent, pos.x % 2, pos.y % 2", "return parent, pos.y % 2, pos.x % 2", "C13.R1")
+V("C13", "closed-form-arg", PYR, "            return depth2tiles(self.depth - (self._apex.n + 1))", "            return depth2tiles(self.depth - self._apex.n)", "C13.R4")
+V("C13", "closed-form", PYR, "    return (4 ** (depth + 1) - 1) // 3", "    return (4 ** (depth + 1)) // 3", "C13.R4")
+V("C13", "live-unconditional-plus-one", PYR, "                # Only count this tile as \"live\" if it has any live children.\n                if count:\n                    count += 1", "                count += 1", "C13.R5")
+V("C13", "children-order", PYR, "        Pos(n=n, x=x + 1, y=y),\n        Pos(n=n, x=x, y=y + 1),", "        Pos(n=n, x=x, y=y + 1),\n        Pos(n=n, x=x + 1, y=y),", "C13.R1")
+V("C13", "subpyramid-depth", PYR, "                for pos in generate_pos(self.depth - na):", "                for pos in generate_pos(self.depth - na + 1):", "C13.R3")
+V("C13", "leaf-visit-all", PYR, "                if is_leaf:\n                    callback(pos, tile)\n                    progress.update(1)\n\n                riter.set_data(None)\n\n    def _visit_leaves_parallel", "                callback(pos, tile)\n                progress.update(1)\n\n                riter.set_data(None)\n\n    def _visit_leaves_parallel", "C13.R5")
+V("C13", "is-subtile-x-only", PYR, "        return deeper_pos.x == shallower_pos.x and deeper_pos.y == shallower_pos.y", "        return deeper_pos.x == shallower_pos.x", "C13.R1")
+V("C13", "ops-leaf-one", PYR, "            if is_leaf:\n                is_live = True\n                ops = 0\n            else:\n                is_live = data[0][0] or data[1][0] or data[2][0] or data[3][0]\n                ops = data[0][1] + data[1][1] + data[2][1] + data[3][1]\n\n                if is_live:\n                    ops += 1\n\n            riter.set_data((is_live, ops))\n\n        return riter.result()[1]",
+  "            if is_leaf:\n                is_live = True\n                ops = 1\n            else:\n                is_live = data[0][0] or data[1][0] or data[2][0] or data[3][0]\n                ops = data[0][1] + data[1][1] + data[2][1] + data[3][1]\n\n                if is_live:\n                    ops += 1\n\n            riter.set_data((is_live, ops))\n\n        return riter.result()[1]", "C13.R5")
+V("C13", "P-shift-scale", PYR, "                    x_eff = pos.x + self._apex.x * 2**pos.n\n                    y_eff = pos.y + self._apex.y * 2**pos.n", "                    scale = 1 << pos.n\n                    x_eff = pos.x + self._apex.x * scale\n                    y_eff = self._apex.y * scale + pos.y", "HOLDS")
+V("C13", "P-count-sum", PYR, "                count = data[0] + data[1] + data[2] + data[3]\n\n                # Only count", "                count = data[3] + data[2] + data[1] + data[0]\n\n                # Only count", "HOLDS")
